@@ -11,6 +11,7 @@ import random
 import re
 
 BLOCK = 16384
+UNORDERED_TIMEOUT = 60     # RequestList::timeout_process_unordered (seconds); only used to tell two finding classes apart
 
 LAYOUTS = [
     # (plen, files)  -- pieces, blocks per piece
@@ -223,6 +224,14 @@ def hand_cases():
     H.append(h("J:0:- B:0:3 U:0 H:0:3 H:0:4 A:1 P:0:0 A:31 Q:0"))                              # UNCHOKE racing with HAVEs
     H.append(h("J:0:111 J:1:111 U:0 U:1 A:31 P:0:0 PC:1:0 P:1:0 PC:0:0 A:31 Q:1", small))       # PIECE crossing our CANCEL (endgame)
     H.append(h("J:0:1111100000 J:1:1111111111 U:0 U:1 B:0:1 P:1:0 K:0 P:1:0 A:1 P:1:0 A:8 Q:1"))  # requests sent while p0's CHOKE is in flight
+    # one small wanted file, the rest off (normal mode): seeder 0 holds every request of the wanted piece, seeder 1 has nothing
+    # to be asked for; then 0 chokes: the requests must be re-issued to 1 (interest in a LISTED piece must have been kept)
+    H.append(h("W:1:0 W:2:0 W:3:0 W:4:0 W:5:0 J:0:%s J:1:%s U:0 U:1 A:31 K:0 A:8 A:31 Q:1" % ("1" * npieces(*many), "1" * npieces(*many)), many))
+    H.append(h("W:1:0 W:2:0 W:3:0 W:4:0 W:5:0 J:0:%s J:1:%s U:0 U:1 A:31 X:0 A:31 Q:1" % ("1" * npieces(*many), "1" * npieces(*many)), many))
+    # a peer with nothing useful unchokes (interest dropped), chokes, unchokes again while the client is not interested,
+    # then announces a wanted piece: the unchoke must not have been forgotten
+    H.append(h("J:0:- U:0 K:0 U:0 H:0:3 A:31 Q:0"))
+    H.append(h("J:0:- U:0 A:3 K:0 A:12 U:0 A:12 H:0:3 H:0:4 A:31 P:0:0 A:31 Q:0"))
     # four peers
     H.append(h("J:0:1111100000 J:1:0000011111 J:2:1111111111 J:3:- U:0 U:1 U:2 U:3 P:0:0 P:1:0 P:2:0 K:2 P:0:0 X:1 A:8 U:2 H:3:2 A:31 Q:2"))
     return H
@@ -335,7 +344,11 @@ def oracle(case, out):
     out_req = {}                 # peer -> set of (i,o) outstanding on the wire
     timed_out = {}               # peer -> blocks the client dropped by its unordered timer (no CANCEL sent)
     last_snap_u = {}
+    now = 0                      # virtual seconds (sum of A:n)
+    u_since = {}                 # peer -> {block: time it entered the unordered bucket}
+    premature = {}               # peer -> blocks released by the unordered timer well before its 60 s
     mid = {}                     # peer -> block whose PIECE message is half received
+    silent_drop = {}             # peer -> interest dropped internally and no INTERESTED sent since
 
     def psize(i):
         return total - i * plen if i == n - 1 else plen
@@ -351,7 +364,7 @@ def oracle(case, out):
             timed_out[p] = set()
             last_snap_u[p] = []
         elif t == "X":
-            for d in (have, interested, unchoked, out_req, timed_out, last_snap_u, mid):
+            for d in (have, interested, unchoked, out_req, timed_out, last_snap_u, mid, u_since, premature, silent_drop):
                 d.pop(e[1], None)
         elif t == "H":
             have[e[1]][int(e[2])] = True
@@ -359,10 +372,16 @@ def oracle(case, out):
             unchoked[e[1]] = False
             out_req[e[1]] = set([mid[e[1]]]) if e[1] in mid else set()      # a choke voids every request on the wire
             timed_out[e[1]] = set()
+            premature[e[1]] = set()
         elif t == "U":
             unchoked[e[1]] = True
         elif t == "I":
             interested[e[1]] = True
+            silent_drop[e[1]] = False
+        elif t == "LI":
+            # the client dropped its interest internally; the NOT_INTERESTED of that path is never written (m_send_interested is
+            # overwritten), so the wire still says "interested": the next REQUEST must be preceded by a fresh INTERESTED
+            silent_drop[e[1]] = True
         elif t == "N":
             interested[e[1]] = False
         elif t == "P":
@@ -378,6 +397,8 @@ def oracle(case, out):
                 timed_out.get(e[1], set()).discard(b)
         elif t == "C":
             out_req[e[1]].discard((int(e[2]), int(e[3])))
+        elif t == "A":
+            now += int(e[1])
         elif t == "F":
             completed[int(e[1])] = True
         elif t == "W":
@@ -386,9 +407,17 @@ def oracle(case, out):
             # remember the unordered bucket to know which blocks a DU drops
             parts = ":".join(e[3:]).split("/")
             last_snap_u[e[1]] = [tuple(map(int, x.split(".")[:2])) for x in parts[1].split(";") if x]
+            since = u_since.setdefault(e[1], {})
+            for b in list(since):
+                if b not in last_snap_u[e[1]]:
+                    del since[b]
+            for b in last_snap_u[e[1]]:
+                since.setdefault(b, now)
         elif t == "DU":
             for b in last_snap_u.get(e[1], [])[:int(e[2])]:
                 timed_out[e[1]].add(b)
+                if now - u_since.get(e[1], {}).get(b, now) < UNORDERED_TIMEOUT - 5:
+                    premature.setdefault(e[1], set()).add(b)
         elif t == "R":
             p, i, o, l = e[1], int(e[2]), int(e[3]), int(e[4])
             where = "event %d REQUEST %d:%d:%d to peer %s" % (k, i, o, l, p)
@@ -411,10 +440,18 @@ def oracle(case, out):
                 v.append(("request-unwanted", where + ": piece %d is not wanted (priority off) and never was while requested" % i))
             if not interested.get(p):
                 v.append(("request-uninterested", where + ": no INTERESTED in force"))
+            elif silent_drop.get(p):
+                v.append(("request-after-silent-uninterest", where + ": the client had dropped its interest in this peer (internally) and "
+                          "sent no fresh INTERESTED before requesting again"))
             if not unchoked.get(p):
                 v.append(("request-while-choked", where + ": the peer has the client choked"))
             if (i, o) in out_req[p]:
-                if (i, o) in timed_out[p]:
+                if (i, o) in premature.get(p, ()):
+                    v.append(("unordered-stale-position-rerequest", where + ": second REQUEST for a block still outstanding at this peer; the "
+                              "client released the first one by its unordered timer only seconds after the block was overtaken (the "
+                              "timer and m_last_unordered_position were left armed by an EARLIER out-of-order batch that a choke / "
+                              "stall had emptied), again without CANCEL"))
+                elif (i, o) in timed_out[p]:
                     v.append(("unordered-timeout-rerequest", where + ": second REQUEST for a block still outstanding at this peer "
                               "(the client dropped the first one by its 60 s unordered timer without sending CANCEL)"))
                 elif mid.get(p) == (i, o):
